@@ -268,9 +268,13 @@ impl Report {
             }
             return 1;
         }
-        if self.bounds.is_empty() {
-            eprintln!("machinery failure: no bound was completed");
+        if self.states == 0 {
+            eprintln!("machinery failure: nothing was explored");
             return 2;
+        }
+        if self.bounds.is_empty() {
+            // every part hit its time cap: what was explored held, and the evidence says so
+            println!("NOTE: no bound was completed within the time caps (exhaustive=false); the property held on the {} states explored", self.states);
         }
         0
     }
